@@ -5,11 +5,16 @@
 """
 MIDI over TCP/IP.
 """
+import errno
 import select
 import socket
 
 from .parser import Parser
 from .ports import BaseIOPort, MultiPort
+
+
+# What a read reports when the other end has gone away abruptly.
+_DISCONNECT_ERRNOS = (errno.ECONNRESET, errno.ECONNABORTED, errno.EPIPE)
 
 
 def _is_readable(socket):
@@ -104,6 +109,12 @@ class SocketPort(BaseIOPort):
             try:
                 byte = self._rfile.read(1)
             except OSError as err:
+                if err.errno in _DISCONNECT_ERRNOS:
+                    # The other end died (or closed the connection
+                    # without reading what we had sent): this is a
+                    # disconnect as well, just not an orderly one.
+                    self.close()
+                    break
                 raise OSError(err.args[1]) from err
             if len(byte) == 0:
                 # The other end has disconnected.
